@@ -76,11 +76,50 @@ type dealerPart struct {
 	greyParty        map[int]bool // callees that may hold invocations the model does not know
 	maxEvents        int // most competing events seen on one call
 	maxEventsTimeout int // same, among calls that carried a timeout or saw a cancel
+	// held: final results the router could not hand to a caller whose queue was
+	// (exactly known to be) full; the router retries them at yieldT + (2^k - 1) ms
+	// until the result-retry period (one minute) is over
+	held map[ck]*heldResult
+}
+
+// heldResult is a final RESULT waiting for room in its caller's queue.
+type heldResult struct {
+	caller, callee int
+	req, inv       wamp.ID
+	yieldT         time.Duration
+	resumeT        time.Duration // when the caller was first seen reading again; -1 not yet
+	match          func(wamp.Message) bool
+}
+
+// retryInstants: the router re-offers a blocked RESULT 1, 3, 7, ... (2^k - 1) ms
+// after the first attempt; the first attempt made at or after the one-minute
+// period is the last one.
+func (h *heldResult) firstRetryAfter(t time.Duration) (at time.Duration, last bool, none bool) {
+	for k := 1; k < 40; k++ {
+		off := time.Duration((int64(1)<<k)-1) * time.Millisecond
+		isLast := off >= time.Minute
+		if h.yieldT+off > t {
+			return h.yieldT + off, isLast, false
+		}
+		if isLast {
+			break
+		}
+	}
+	return 0, false, true
 }
 
 func newDealerPart(w *World) *dealerPart {
 	return &dealerPart{regs: map[string]*mReg{}, byID: map[string]*mReg{}, calls: map[ck]*mCall{}, invs: map[ck]*mCall{},
-		handledProcs: map[string]bool{}, greyParty: map[int]bool{}, abandoned: map[ck]bool{}, usedInv: map[int]map[wamp.ID]bool{}, metaReq: map[ck]bool{}, greyReq: map[ck]bool{}, greyInv: map[ck]bool{}, finalDue: map[ck]int{}}
+		handledProcs: map[string]bool{}, greyParty: map[int]bool{}, abandoned: map[ck]bool{}, usedInv: map[int]map[wamp.ID]bool{}, metaReq: map[ck]bool{}, greyReq: map[ck]bool{}, greyInv: map[ck]bool{}, finalDue: map[ck]int{}, held: map[ck]*heldResult{}}
+}
+
+// dropHeld gives up exact judgement of a held result (something else happened
+// to the call or its parties meanwhile): whatever arrives for it is accepted.
+func (d *dealerPart) dropHeld(w *World, h *heldResult, why string) {
+	delete(d.held, ck{h.caller, h.req})
+	d.greyReq[ck{h.caller, h.req}] = true
+	d.greyInv[ck{h.callee, h.inv}] = true
+	w.st.Label("grey:held_result_" + why)
 }
 
 func (d *dealerPart) Ignore(w *World, s int, m wamp.Message) bool {
@@ -161,6 +200,11 @@ func (d *dealerPart) removeMember(w *World, st *StepRec, r *mReg, idx int) {
 
 func (d *dealerPart) OnEnded(w *World, st *StepRec, idx int, exp Exp) {
 	realm := w.sess[idx].realm
+	for _, h := range d.heldSorted() {
+		if h.caller == idx || h.callee == idx {
+			d.dropHeld(w, h, "party_ended")
+		}
+	}
 	// registrations
 	keys := make([]string, 0, len(d.regs))
 	for k := range d.regs {
@@ -340,6 +384,10 @@ func (d *dealerPart) OnSent(w *World, st *StepRec, sr sentRec, exp Exp) *Violati
 			})
 			return nil
 		}
+		if h := d.held[ck{sr.S, req}]; h != nil {
+			d.dropHeld(w, h, "cancelled")
+			return nil
+		}
 		c := d.calls[ck{sr.S, req}]
 		if c == nil {
 			w.st.Label("cancel_no_such_call")
@@ -409,12 +457,36 @@ func (d *dealerPart) OnSent(w *World, st *StepRec, sr sentRec, exp Exp) *Violati
 			d.markGrey(w, c, "ppt_yield")
 			return nil
 		}
-		if w.stalled[c.caller] {
-			d.markGrey(w, c, "yield_to_stalled_caller")
-			return nil
-		}
 		req := c.req
 		args, kw := m.Arguments, m.ArgumentsKw
+		if w.stalled[c.caller] {
+			// The caller does not read. When its queue is known to be full the router
+			// cannot hand over a final RESULT now and retries; the caller must get it
+			// once it reads again within the retry period (C02: a caller that keeps
+			// reading gets its one final reply; C07: the bounded hold).
+			exact := !progress && !c.killPending && !c.progressive && w.sess[c.caller].local && !w.unsure[c.caller] &&
+				len(w.backlog[c.caller]) >= w.queueCap(c.caller) && len(exp[c.caller]) == 0
+			if !exact {
+				d.markGrey(w, c, "yield_to_stalled_caller")
+				return nil
+			}
+			h := &heldResult{caller: c.caller, callee: c.callee, req: req, inv: c.inv, yieldT: st.T, resumeT: -1}
+			h.match = func(x wamp.Message) bool {
+				r, ok := x.(*wamp.Result)
+				if !ok || r.Request != req {
+					return false
+				}
+				if p, _ := r.Details["progress"].(bool); p {
+					return false
+				}
+				return PayloadEq(r.Arguments, args) && PayloadEq(r.ArgumentsKw, kw)
+			}
+			c.events++
+			d.finish(c, false)
+			d.held[ck{h.caller, req}] = h
+			w.st.Label("final_result_held_for_full_caller_queue")
+			return nil
+		}
 		if progress {
 			if c.killPending {
 				d.markGrey(w, c, "progressive_yield_after_kill")
@@ -848,7 +920,73 @@ func (d *dealerPart) onCallMsg(w *World, st *StepRec, s int, realm string, rc *R
 	return nil
 }
 
+func (d *dealerPart) heldSorted() []*heldResult {
+	var out []*heldResult
+	for _, h := range d.held {
+		out = append(out, h)
+	}
+	sort.Slice(out, func(i, j int) bool {
+		if out[i].caller != out[j].caller {
+			return out[i].caller < out[j].caller
+		}
+		return out[i].req < out[j].req
+	})
+	return out
+}
+
+// afterStepHeld: a held final RESULT must reach its caller at the first retry
+// after the caller started reading again, exactly once.
+func (d *dealerPart) afterStepHeld(w *World, st *StepRec, exp Exp) {
+	for _, h := range d.heldSorted() {
+		key := ck{h.caller, h.req}
+		if w.stalled[h.caller] {
+			if _, _, none := h.firstRetryAfter(st.T); none {
+				// the retry period ended while the caller still did not read: the call is cancelled
+				// (the callee is told by an INTERRUPT)
+				delete(d.held, key)
+				d.greyReq[key] = true
+				d.greyInv[ck{h.callee, h.inv}] = true
+				w.st.Label("held_result_expired")
+			}
+			continue
+		}
+		if h.resumeT < 0 {
+			h.resumeT = st.T
+			if st.Phase == "settle" {
+				// the engine lets silent sessions read again only after the 24 hours
+				h.resumeT = st.T + time.Hour
+			}
+		}
+		at, _, none := h.firstRetryAfter(h.resumeT)
+		if none {
+			delete(d.held, key)
+			d.greyReq[key] = true
+			d.greyInv[ck{h.callee, h.inv}] = true
+			w.st.Label("held_result_expired")
+			continue
+		}
+		seen := false
+		for _, x := range st.Recv[h.caller] {
+			if h.match(x) {
+				seen = true
+			}
+		}
+		desc := fmt.Sprintf("RESULT{req=%d final} held back since t=%v for a full queue, due at the retry of t=%v after the caller read again at t=%v", h.req, h.yieldT, at, h.resumeT)
+		switch {
+		case seen:
+			exp.must(h.caller, desc, h.match)
+			d.finalDue[key]++
+			delete(d.held, key)
+			w.st.Label("held_result_delivered_after_resume")
+		case st.T >= at:
+			exp.must(h.caller, desc, h.match) // reported as missing
+			delete(d.held, key)
+		}
+	}
+}
+
 func (d *dealerPart) AfterStep(w *World, st *StepRec, exp Exp) *Violation {
+	d.afterStepHeld(w, st, exp)
 	// router-handled timeouts that have expired by now
 	var due []*mCall
 	for _, c := range d.calls {
